@@ -78,7 +78,11 @@ fn rvalue<'tcx>(tcx: TyCtxt<'tcx>, owner: LocalDefId, rv: &Rvalue<'tcx>) -> J {
         Rvalue::Cast(kind, o, t) => J::Obj(vec![("rv", J::s("cast")), ("kind", J::s(format!("{:?}", kind))), ("a", op(o)), ("to", J::s(format!("{}", t)))]),
         Rvalue::BinaryOp(bop, ab) => J::Obj(vec![("rv", J::s("bin")), ("op", J::s(format!("{:?}", bop))), ("a", op(&ab.0)), ("b", op(&ab.1))]),
         Rvalue::UnaryOp(uop, o) => J::Obj(vec![("rv", J::s("un")), ("op", J::s(format!("{:?}", uop))), ("a", op(o))]),
-        Rvalue::Discriminant(p) => J::Obj(vec![("rv", J::s("discr")), ("p", place(p))]),
+        Rvalue::Discriminant(p) => {
+            let body = tcx.optimized_mir(owner.to_def_id());
+            let t = p.ty(&body.local_decls, tcx).ty;
+            J::Obj(vec![("rv", J::s("discr")), ("p", place(p)), ("ty", J::s(format!("{}", t)))])
+        }
         Rvalue::Aggregate(kind, ops) => {
             let k = match &**kind {
                 mir::AggregateKind::Adt(did, variant, ..) => format!("adt:{}#{}", def_path(tcx, *did), variant.as_u32()),
@@ -168,6 +172,7 @@ pub fn body(tcx: TyCtxt<'_>, ldid: LocalDefId) -> J {
                 v.push(("dest", place(destination)));
                 v.push(("target", target.map_or(J::Null, |b| J::Int(b.as_u32() as i128))));
                 v.push(("sp", loc(tcx, *fn_span)));
+                v.push(("esp", loc(tcx, sp)));
                 v.push(("mac", macros(sp)));
                 J::Obj(v)
             }
